@@ -13,7 +13,7 @@ GATE_METHODS = {
 
 CLASSES = [
     ClassContract(
-        name="AutoDetachObserver", props=["C01", "C02", "C03", "C14"], file=O + "autodetachobserver.py", cls="AutoDetachObserver",
+        name="AutoDetachObserver", props=["C01", "C02", "C03", "C14", "C40"], file=O + "autodetachobserver.py", cls="AutoDetachObserver",
         fields={"_on_next": "callback", "_on_error": "callback", "_on_completed": "callback",
                 "_subscription": "ref:disposable", "is_stopped": "bool"},
         spec="specs.c01:auto_detach",
